@@ -111,6 +111,14 @@ func runMonitorC13(cs *caseSource) monitorResult {
 	return res
 }
 
+func algSet(s string) map[string]bool {
+	m := map[string]bool{}
+	for _, a := range strings.Split(s, ",") {
+		m[a] = true
+	}
+	return m
+}
+
 func loadCorpus(dir string) [][]byte {
 	var res [][]byte
 	ents, err := os.ReadDir(dir)
@@ -121,9 +129,17 @@ func loadCorpus(dir string) [][]byte {
 		if !strings.HasSuffix(e.Name(), ".hex") {
 			continue
 		}
-		data, err := os.ReadFile(dir + "/" + e.Name())
+		res = append(res, loadHexFile(dir+"/"+e.Name())...)
+	}
+	return res
+}
+
+func loadHexFile(path string) [][]byte {
+	var res [][]byte
+	{
+		data, err := os.ReadFile(path)
 		if err != nil {
-			continue
+			return nil
 		}
 		for _, line := range strings.Split(string(data), "\n") {
 			line = strings.TrimSpace(line)
@@ -162,6 +178,10 @@ func main() {
 	stream := flag.String("stream", "E5", "PRNG stream name")
 	printReps := flag.Bool("print-reps", false, "print one code point per class signature (comma separated) and exit")
 	specKinds := flag.String("spec-kinds", "fg,fw,fs,fl", "segmenters for the SPEC stage")
+	specStep := flag.Bool("spec-step", true, "also compare the matching Step/StepString flags with the spec")
+	algs := flag.String("algs", "gr,wb,sb,lb", "restrict E1/E3 to these rule sets")
+	e2props := flag.String("props", "g,w,s,l,e,m,G,L,E", "restrict E2 to these lookups")
+	inputsFile := flag.String("inputs-file", "", "file with one hex input per line; replaces the corpus and, with -n 0, the generated stream")
 	flag.Parse()
 
 	t0 := time.Now()
@@ -215,6 +235,9 @@ func main() {
 
 	res := result{Seed: *seed, Tier: *tier, Amb: *amb, Distribution: newDist(), Signatures: len(ci.sigs)}
 	cs := &caseSource{seed: *seed, stream: *stream, n: *n, corpus: loadCorpus(*corpus), amb: *amb}
+	if *inputsFile != "" {
+		cs.corpus = loadHexFile(*inputsFile)
+	}
 	var d *driver
 	needDriver := false
 	for _, s := range strings.Split(*stages, ",") {
@@ -236,11 +259,11 @@ func main() {
 	for _, s := range strings.Split(*stages, ",") {
 		switch s {
 		case "E1":
-			res.Stages = append(res.Stages, stageE1(*driverPath))
+			res.Stages = append(res.Stages, stageE1(*driverPath, algSet(*algs)))
 		case "E2":
-			res.Stages = append(res.Stages, stageE2(*driverPath))
+			res.Stages = append(res.Stages, stageE2(*driverPath, algSet(*e2props)))
 		case "E3":
-			res.Stages = append(res.Stages, stageE3(d, thorough))
+			res.Stages = append(res.Stages, stageE3(d, thorough, algSet(*algs)))
 		case "E3b":
 			res.Stages = append(res.Stages, stageE3b(thorough))
 		case "E4":
@@ -250,7 +273,7 @@ func main() {
 		case "E6":
 			res.Stages = append(res.Stages, stageE6(d, *seed, *n6, *amb))
 		case "SPEC":
-			res.Stages = append(res.Stages, stageSpec(d, cs, strings.Split(*specKinds, ","), thorough))
+			res.Stages = append(res.Stages, stageSpec(d, cs, strings.Split(*specKinds, ","), *specStep, thorough))
 		case "":
 		default:
 			fatal("unknown stage %q", s)
